@@ -44,6 +44,7 @@ type EnvState struct {
 	jsonVals      map[string]Value
 	httpNext      []Value
 	acct          *acctEnv
+	timeNames     map[*Term]int
 }
 
 func newEnv(in *Interp) *EnvState {
@@ -588,7 +589,22 @@ func init() {
 	s["(time.Time).UTC"] = func(in *Interp, fr *frame, a []Value) Value { return a[0] }
 	s["(time.Time).Local"] = s["(time.Time).UTC"]
 	s["(time.Time).Round"] = s["(time.Time).UTC"]
-	s["(time.Time).Format"] = func(in *Interp, fr *frame, a []Value) Value { return "<time>" }
+	// formatted instants are placeholders that are equal exactly when the instants are the same term
+	s["(time.Time).Format"] = func(in *Interp, fr *frame, a []Value) Value {
+		t := timeNS(a[0])
+		if in.env.timeNames == nil {
+			in.env.timeNames = map[*Term]int{}
+		}
+		n, ok := in.env.timeNames[t]
+		if !ok {
+			n = len(in.env.timeNames)
+			in.env.timeNames[t] = n
+		}
+		if n == 0 {
+			return "<time>"
+		}
+		return fmt.Sprintf("<time+%d>", n)
+	}
 	s["(time.Time).String"] = s["(time.Time).Format"]
 	s["(time.Duration).String"] = func(in *Interp, fr *frame, a []Value) Value { return "<duration>" }
 	s["(time.Time).MarshalJSON"] = func(in *Interp, fr *frame, a []Value) Value {
